@@ -498,6 +498,7 @@ func c20(r *Report, s *Sem) {
 	st := muxT.Underlying().(*types.Struct)
 	kinds := []struct{ handler, adapter string }{{"MessageHandler", "messageHandler"}, {"NotificationHandler", "notificationHandler"}, {"RequestCommandHandler", "requestCommandHandler"}, {"ResponseCommandHandler", "responseCommandHandler"}}
 	var shapesHandle, shapesReg, shapesAdapter []string
+	var regFns []*ssa.Function // the mux's registration methods
 	for _, k := range kinds {
 		// the slice field of this kind
 		var fld *types.Var
@@ -576,6 +577,7 @@ func c20(r *Report, s *Sem) {
 		})
 		r.Check(R1, "func "+fnName(regF)+" / wraps predicate and function unchanged", p.pos(regF.Pos()), okWrap, "")
 		shapesReg = append(shapesReg, cfgShape(reg)+"|"+cfgShape(regF))
+		regFns = append(regFns, reg, regF)
 
 		// ---- R2
 		var hf *ssa.Function
@@ -685,6 +687,23 @@ func c20(r *Report, s *Sem) {
 		}
 		r.Check(R3, "func "+fnName(m)+" / nil predicate matches, otherwise the predicate decides", p.pos(m.Pos()), okNil && okPred, fmt.Sprintf("nil ⇒ true: %v; predicate(envelope) returned: %v", okNil, okPred))
 		shapesAdapter = append(shapesAdapter, cfgShape(m)+"|"+cfgShape(p.Method(k.adapter, "Handle")))
+	}
+
+	// ---- R6
+	R6 := r.Rule("R6", "the builders register at once: a handler registration made through ServerBuilder/ClientBuilder reaches the mux inside the builder method that was called, never later in Build() — so the table order is the order of the application's calls", 2)
+	for _, bn := range []string{"ServerBuilder", "ClientBuilder"} {
+		build := p.Method(bn, "Build")
+		if build == nil {
+			r.Undecided(R6, "anchor-unresolved:"+bn+".Build", "-", "not found")
+			continue
+		}
+		late := ""
+		for f := range p.reachable(build) {
+			if containsFn(regFns, f) {
+				late = fnName(f)
+			}
+		}
+		r.Check(R6, "func "+fnName(build)+" / registers no handler", p.pos(build.Pos()), late == "", "Build() reaches "+late+": a handler registered there lands behind every handler the application registered after the call that asked for it")
 	}
 
 	// ---- R4
